@@ -1,12 +1,12 @@
 #!/venv/bin/python
 """Copies verified seeded changes from the sub-agents' scratch worktrees into /verif/seeded/<id>/ (patch.diff, demo.py, notes.md, meta.json)."""
-import json, re, shutil, subprocess, sys
+import json, os, re, shutil, subprocess, sys
 from pathlib import Path
 
 VERIF = Path("/verif")
 out = VERIF / "seeded"
 out.mkdir(exist_ok=True)
-for sd in sorted(Path("/tmp/seed").glob("C*/SEED/C*-*")):
+for sd in sorted(Path(os.environ.get("SEED_SRC", "/tmp/seed2")).glob("C*/SEED/C*-*")):
     dst = out / sd.name
     if (dst / "meta.json").exists() and "--force" not in sys.argv:
         continue
